@@ -1,7 +1,7 @@
 (* Props/C01.v -- TextGrid save/open round trip: the text layer.
    Property theorems only; proofs are in IO/CodecProofs.v. *)
 From Coq Require Import String.
-From PraatIO Require Import IO.IoModel IO.CodecProofs IO.ShortFileProofs IO.LongFileProofs IO.JsonDict.
+From PraatIO Require Import IO.IoModel IO.CodecProofs IO.ShortFileProofs IO.ShortChunkProofs IO.LongFileProofs IO.JsonDict.
 Open Scope Z_scope.
 
 (* un-doubling the doubled form is the identity, for every label and name *)
@@ -73,6 +73,26 @@ Theorem C01_short_file_roundtrip tab g :
   parse_short (print_short tab g) = Ok (rd_tg tab g).
 Proof. exact (parse_short_printed tab g). Qed.
 Print Assumptions C01_short_file_roundtrip.
+
+(* ... and that side condition is PROVED, not assumed, whenever no name or label contains one of the two
+   class words: the short form round-trips whole files with no evaluated hypothesis left -- any number
+   of tiers and entries, labels with quotes, doubled quotes, newlines, '=', digits *)
+Theorem C01_short_file_roundtrip_unconditional tab g :
+  dg_tiers g <> [] ->
+  forallb (fun c => negb (c =? 13)%N) (print_short tab g) = true ->
+  plain_tok (num_str (lookup tab (dg_xmin g))) = true -> plain_tok (num_str (lookup tab (dg_xmax g))) = true ->
+  forallb (tier_ok tab) (dg_tiers g) = true -> forallb tier_free (dg_tiers g) = true ->
+  parse_short (print_short tab g) = Ok (rd_tg tab g).
+Proof. exact (parse_short_printed_free tab g). Qed.
+Print Assumptions C01_short_file_roundtrip_unconditional.
+
+(* the chunking itself: cutting the written text at the class keywords finds the header and the tier blocks *)
+Theorem C01_short_chunking tab g :
+  plain_tok (num_str (lookup tab (dg_xmin g))) = true -> plain_tok (num_str (lookup tab (dg_xmax g))) = true ->
+  forallb (tier_ok tab) (dg_tiers g) = true -> forallb tier_free (dg_tiers g) = true ->
+  chunk_ok tab g = true.
+Proof. exact (chunk_ok_free tab g). Qed.
+Print Assumptions C01_short_chunking.
 
 (* long form, whole file: the regex reader applied to what the long writer printed returns the
    textgrid span and, for every tier in order, its type, name, span and entries -- for any number of
